@@ -6,6 +6,7 @@ import (
 	"errors"
 	"fmt"
 	"math/rand/v2"
+	"reflect"
 	"strings"
 	"testing"
 	"testing/synctest"
@@ -113,6 +114,14 @@ func (t *bqTask) start(fs *fsmServer) {
 			qr := t.q.Eval(s, ws)
 			meta.Index = qr.Index
 			res = qr.Result + "|" + qr.Err
+			if t.q.Single && qr.Err == "" {
+				// what the endpoints of single-item reads do: "no such item" is not an answer to wait on,
+				// unless the item was there before (then the caller must hear that it is gone: what the
+				// scheduler believes the query has seen is not updated here)
+				if _, item, _ := t.q.Run(s, nil); item == nil || (reflect.ValueOf(item).Kind() == reflect.Ptr && reflect.ValueOf(item).IsNil()) {
+					return blockingquery.ErrNotFound
+				}
+			}
 			t.lastRes = res // what the parked query last evaluated (read by the scheduler only after synctest.Wait)
 			if qr.Err != "" {
 				return errors.New(qr.Err) // an erroring query is answered at once, it never parks
@@ -174,8 +183,18 @@ func (C06) execute(p *Plan, r *simkit.Run) *simkit.Violation {
 	fs := &fsmServer{c: c, shutdown: make(chan struct{})}
 	var tasks []*bqTask
 	pickQ := simkit.NewRNG(uint64(len(p.Steps))*7919 + uint64(len(battery)))
-	for i := 0; i < 6; i++ {
+	var singles []Query
+	for _, q := range battery {
+		if q.Single {
+			singles = append(singles, q)
+		}
+	}
+	for i := 0; i < 8; i++ {
 		q := battery[pickQ.IntN(len(battery))]
+		if i >= 5 && len(singles) > 0 {
+			// reads of one item wait differently (not-found is not an answer): always have some
+			q = singles[pickQ.IntN(len(singles))]
+		}
 		if q.NoWatch || q.NoIndex || c06Skip[q.Group] {
 			continue
 		}
